@@ -117,6 +117,9 @@ class State(object):
         self._pc = None
 
 
+missing_hook = None      # set by the executor: (frame id, name) -> value of an unread environment entry, or VUnbound
+
+
 def _merge_term(c, a, b):
     if isinstance(a, Heap) or isinstance(b, Heap):
         return Heap.ite(c, a, b)
@@ -160,7 +163,13 @@ def join2(c, s1, s2):
         f1, f2 = s1.frames.get(fid, {}), s2.frames.get(fid, {})
         out = {}
         for name in set(f1) | set(f2):
-            out[name] = _merge_term(sel, f1.get(name, VUnbound), f2.get(name, VUnbound))
+            # a name missing on one side is unbound there -- except in the synthetic frames that stand for the enclosing
+            # functions' environments, whose entries are filled in lazily on first read (missing_hook gives the value a
+            # read on that side would have produced)
+            m = VUnbound
+            if (name not in f1 or name not in f2) and missing_hook is not None:
+                m = missing_hook(fid, name)
+            out[name] = _merge_term(sel, f1.get(name, m), f2.get(name, m))
         frames[fid] = out
     ghost = {}
     for g in set(s1.ghost) | set(s2.ghost):
